@@ -304,6 +304,84 @@ fn many_frames(acc: &mut Acc, report: &[&'static str], nmax: usize) {
     acc.states += n;
 }
 
+/// Directed family for byte values outside the six classes in the one place where the decoder
+/// dispatches on a byte *value*: the first byte after an escape prefix. A canonical frame gets the
+/// foreign escape sequence `1b1b1b1b k a b c` spliced in at every neutral offset, for every k, with
+/// the trailer recomputed both ways a lenient decoder might hash it (with / without the spliced
+/// bytes). The monitor decides what is right; nothing is expected of the implementation a priori.
+fn foreign_escapes(acc: &mut Acc, report: &[&'static str]) {
+    let payloads: Vec<Vec<u8>> = vec![vec![], vec![0x55], vec![0x55; 4], vec![0, 0, 0, 0], vec![0x55, 0x1b, 0x1b, 0x1b, 0x1b, 0x55], vec![0x01, 0x02, 0x1a, 0x00, 0x55, 0x00, 0x00, 0x03]];
+    let mut items: Vec<(usize, usize)> = vec![];
+    let mut frames = vec![];
+    for (pi, p) in payloads.iter().enumerate() {
+        let f = canon(p);
+        let pad = f[f.len() - 3] as usize;
+        let esc_end = f.len() - 8 - pad;
+        for o in crate::refm::neutral_cut_offsets(p) {
+            if o >= 8 && o <= esc_end {
+                items.push((pi, o));
+            }
+        }
+        frames.push((f, esc_end));
+    }
+    let parts = par_chunks(items.len() as u64, 1, |a, b| {
+        let mut t = Tally::new();
+        let mut c = Counts::default();
+        for i in a..b {
+            let (pi, o) = items[i as usize];
+            let (f, esc_end) = &frames[pi];
+            for k in 0..=255u8 {
+                for abc in [[0u8, 0, 0], [k, k, k], [0x55, 0x55, 0x55], [1, 1, 1], [0x1b, 0x1b, 0x1b]] {
+                    for hash_spliced in [true, false] {
+                        let mut body = f[..o].to_vec();
+                        body.extend_from_slice(&[0x1b, 0x1b, 0x1b, 0x1b, k, abc[0], abc[1], abc[2]]);
+                        body.extend_from_slice(&f[o..*esc_end]);
+                        let pad = (4 - body.len() % 4) % 4;
+                        body.extend(std::iter::repeat(0).take(pad));
+                        body.extend_from_slice(&[0x1b, 0x1b, 0x1b, 0x1b, 0x1a, pad as u8]);
+                        let crc = if hash_spliced {
+                            crate::refm::crc_x25(&body)
+                        } else {
+                            let mut h = body[..o].to_vec();
+                            h.extend_from_slice(&body[o + 8..]);
+                            crate::refm::crc_x25(&h)
+                        };
+                        body.extend_from_slice(&crc.to_le_bytes());
+                        // a valid frame behind it: the decoder must be back in step whatever it made of the first
+                        body.extend_from_slice(&canon(&[0x42]));
+                        for kind in [BufKind::Vec, BufKind::Arr(8)] {
+                            let r = crate::mon::mon_run(kind, &body, &[]);
+                            c.inc("frames with a foreign escape sequence spliced in");
+                            if r.events.iter().any(|e| matches!(e, Ev::Msg(_))) {
+                                c.inc("foreign-escape streams with a delivered frame");
+                            }
+                            for (class, what) in &r.findings {
+                                if report.iter().any(|p| class.starts_with(p)) {
+                                    t.add(Viol {
+                                        class: class.to_string(),
+                                        key: format!("{}:foreign-escape k={:02x} {:02x?} at {} of payload {} hash_spliced={}", kind.name(), k, abc, o, pi, hash_spliced),
+                                        what: what.clone(),
+                                        case: J::obj().set("engine", "e1").set("mode", "bytes").set("buf", kind.name()).set("bytes", hex(&body)),
+                                        size: body.len(),
+                                    });
+                                }
+                            }
+                        }
+                    }
+                }
+            }
+        }
+        (t, c)
+    });
+    for (t, c) in parts {
+        acc.tally.merge(t);
+        acc.counts.merge(&c);
+    }
+    let n = acc.counts.get("frames with a foreign escape sequence spliced in");
+    acc.transitions += n;
+    acc.states += n;
+}
+
 // ------------------------------------------------------------------ C02
 pub fn run_c02(tier: Tier) -> ! {
     let ctx = Ctx::new("C02", tier);
@@ -337,6 +415,7 @@ pub fn run_c02(tier: Tier) -> ! {
     }
     many_frames(&mut acc, &["C02"], tier.pick(300, 1000));
     wide_alphabet(&mut acc, "C02", vec!["C02"], tier.pick(4, 5), &ctx);
+    foreign_escapes(&mut acc, &["C02"]);
     acc.counts.require(&["frames delivered", "frames rejected", "in-frame restarts", "start sequences detected"]);
     let mut cov = acc.coverage(golden, RULE);
     if let Ok(path) = std::env::var("XCHECK_JSON") {
@@ -544,6 +623,7 @@ pub fn run_c05_c17(prop: &'static str, tier: Tier) -> ! {
     if !wrap_phase {
         many_frames(&mut acc, &report, tier.pick(300, 1000));
         wide_alphabet(&mut acc, prop, report.clone(), tier.pick(4, 5), &ctx);
+        foreign_escapes(&mut acc, &report);
         acc.counts.require(&["frames delivered", "frames rejected", "finalize calls", "reset calls", "transitions after a long run"]);
     }
     if wrap_phase {
@@ -850,6 +930,17 @@ pub fn run_c08(tier: Tier) -> ! {
         let cfg = Cfg { alphabet: plain_bytes(), depth: idle_depth, roots, idle_only: true, ..base_cfg("C08", kind, 0, report.clone(), &ctx) };
         let ex = explore(&cfg, &ctx);
         acc.add("idle-phase exploration: every noise string over the byte classes", &cfg, ex);
+        // the same with byte values next to and far from the start sequence's 1b / 01 (a matcher
+        // that compares loosely - masked bits, ranges - accepts one of them)
+        let mut wide = plain_bytes();
+        for b in [0x03u8, 0x09, 0x11, 0x1c, 0x3b, 0x5b, 0x7f, 0x80, 0x81, 0x9b, 0xfe, 0xff] {
+            if !wide.contains(&Sym::B(b)) {
+                wide.push(Sym::B(b));
+            }
+        }
+        let cfg = Cfg { alphabet: wide, depth: if crate::dec::hooks_complete() { tier.pick(10, 12) } else { 5 }, roots: idle_roots.clone(), idle_only: true, ..base_cfg("C08", kind, 0, report.clone(), &ctx) };
+        let ex = explore(&cfg, &ctx);
+        acc.add("idle-phase exploration over a wide byte alphabet", &cfg, ex);
     }
     // general exploration (in-frame restarts, frames after errors) reporting the C08 classes; tiny
     // fixed buffers as well: OutOfMemory histories, restarts and end sequences that have to flush
